@@ -39,6 +39,18 @@ CLAIMS["C07"] = (
     "MultiIndexSet/StorageSet themselves (three-way merge, binary search) are trusted here. Rules D1.overwrite and D6 were written after seeds C07-a/b were known (see DESIGN.md).",
     "DESIGN.md 4/C07")
 
+CLAIMS["C06"] = (
+    "writer/reader token-sequence agreement (AST linearisation of every serialisation routine into nested (element type, data member) sequences per i/o mode, template constants folded), "
+    "member coverage, enum codec totality/injectivity, section-tag agreement, unconditional rebuild of derived state",
+    "Static rule discharge over 11 writer/reader pairs x 2 modes: both sides transfer the same members, in the same order, with the same element types, under the same section guards "
+    "(flag written from the condition that guards the section); every data member of the grid classes is serialised or rebuilt by the reader from restored data; rule codecs cover every "
+    "enumerator once; top-level tags written are tags the reader accepts and the same members sit under them; state that is not stored (per-tensor point sets, wrappers, sequences) is rebuilt "
+    "on every reader path. A drift between a writer and its reader is a property of the code shape and is decided for every grid state at once.",
+    "Byte equality of a re-written file and the 17-digit decimal round trip of doubles are runtime facts; they follow from the decided clauses only if the stream primitives "
+    "(writeVector/readVector etc.) are mutual inverses, which is trusted. Counts used by readers (e.g. active_w sized by active_tensors) are compared only where both sides are explicit. "
+    "Rules D5 and the member identity in D1 were added after seeds C06-a/b were known.",
+    "DESIGN.md 4/C06")
+
 PENDING = {}
 
 NOT_APPLICABLE = {}
